@@ -178,6 +178,34 @@ def normalizeBlankLines (src : MText) (tl : List Nat) : MText :=
   let r := nbGo tl 0 false ls
   if endsNl src && !endsNl r then r ++ [NL] else r
 
+/-- Variant of phase 6 after the repair `format-fix-blank-lines-inside-string` (lines that start
+inside a token are never blank lines of the program and never get a blank line inserted before
+them). A line starts inside a token iff the `\n` that ends the previous line is a marked byte. -/
+def insideFlags : Bool → List Line → List Bool
+  | _, [] => []
+  | p, l :: ls => p :: insideFlags (match l.term with | some c => marked c | none => false) ls
+
+def isBlankS (x : MText × Bool) : Bool := isBlank x.1 && !x.2
+
+def nbGoSkip (tl : List Nat) : Nat → Bool → List (MText × Bool) → MText
+  | _, _, [] => []
+  | i, prevBlank, l :: ls =>
+    if isBlankS l then
+      (if !prevBlank && ls.any (fun x => !isBlankS x) then [NL] else []) ++ nbGoSkip tl (i + 1) true ls
+    else
+      l.1 ++ [NL] ++
+        (match ls with
+         | nxt :: _ => if !isBlankS nxt && !nxt.2 && tl.contains (i + 1) && !startsComment l.1 then [NL] else []
+         | [] => []) ++
+        nbGoSkip tl (i + 1) false ls
+
+def normalizeBlankLinesSkip (src : MText) (tl : List Nat) : MText :=
+  let raw := rawLines src
+  let ls := (raw.map Line.text).zip (insideFlags false raw)
+  if ls.isEmpty then src else
+  let r := nbGoSkip tl 0 false ls
+  if endsNl src && !endsNl r then r ++ [NL] else r
+
 /-! ### Phase 9: final newline (format.rs:79-85), on the reversed text -/
 
 def popNlRev : MText → MText
